@@ -22,6 +22,8 @@ func runC16(c *Check) {
 	c.chunkOrder()
 	c.mergedIffNoError()
 	c.fetchSharesNothing("C16-R3")
+	c.noGlobalLockAcrossFetch()
+	c.fetchFilesExclusive()
 }
 
 // combineNonNil (R7): a profile handed to combineProfiles is known to be non-nil at the
